@@ -490,6 +490,56 @@ theorem spec_unresolvedName (hrec : RecOK rec B) (hfx : e.fx = Fixes.all) (hl : 
   wq
   spec_close
 
+theorem spec_typeT (hrec : RecOK rec B) (hfx : e.fx = Fixes.all) (hl : st.len ≤ e.n) (hp : st.pos ≤ e.n)
+    (hs : Stop e st.len) (hn : 8 * e.n + 5 ≤ B + 1 + 8 * st.pos) (hlt : st.pos < st.len) (ret : Int) :
+    Tri e st (bTypeT rec ret) (Post (.typeLoop ret) e st) := by
+  have := exN_le st
+  unfold bTypeT
+  wq
+  spec_close
+
+theorem spec_typeD (hrec : RecOK rec B) (hfx : e.fx = Fixes.all) (hl : st.len ≤ e.n) (hp : st.pos ≤ e.n)
+    (hs : Stop e st.len) (hn : 8 * e.n + 5 ≤ B + 1 + 8 * st.pos) (hlt : st.pos < st.len) (ret : Int)
+    (c0 : UInt8) (h0 : st.pos ≤ st.len → e.rd st.pos = some c0) (hc0 : c0.toNat = 68 % 2 ^ 8) :
+    Tri e st (bTypeD rec ret) (Post (.typeLoop ret) e st) := by
+  have := exN_le st
+  unfold bTypeD
+  wq
+  spec_close
+
+theorem spec_typeS (hrec : RecOK rec B) (hfx : e.fx = Fixes.all) (hl : st.len ≤ e.n) (hp : st.pos ≤ e.n)
+    (hs : Stop e st.len) (hn : 8 * e.n + 5 ≤ B + 1 + 8 * st.pos) (hlt : st.pos < st.len) (ret : Int) :
+    Tri e st (bTypeS rec) (Post (.typeLoop ret) e st) := by
+  have := exN_le st
+  unfold bTypeS
+  wq
+  spec_close
+
+theorem spec_typeU (hrec : RecOK rec B) (hfx : e.fx = Fixes.all) (hl : st.len ≤ e.n) (hp : st.pos ≤ e.n)
+    (hs : Stop e st.len) (hn : 8 * e.n + 5 ≤ B + 1 + 8 * st.pos) (hlt : st.pos < st.len) (ret : Int) :
+    Tri e st (bTypeU rec) (Post (.typeLoop ret) e st) := by
+  have := exN_le st
+  unfold bTypeU
+  wq
+  spec_close
+
+macro_rules | `(tactic| wq_helper) => `(tactic| first | (exact spec_typeT (by assumption) (by assumption) (by assumption) (by assumption) (by assumption) (by omega) (by omega) _) | fail)
+macro_rules | `(tactic| wq_helper) => `(tactic| first | (exact spec_typeS (by assumption) (by assumption) (by assumption) (by assumption) (by assumption) (by omega) (by omega) _) | fail)
+macro_rules | `(tactic| wq_helper) => `(tactic| first | (exact spec_typeU (by assumption) (by assumption) (by assumption) (by assumption) (by assumption) (by omega) (by omega) _) | fail)
+macro_rules | `(tactic| wq_helper) => `(tactic| first | (exact spec_typeD (by assumption) (by assumption) (by assumption) (by assumption) (by assumption) (by omega) (by omega) _ _ (by assumption) (by assumption)) | fail)
+
+
+
+theorem spec_typeLoop (ret : Int) (hrec : RecOK rec B) (hfx : e.fx = Fixes.all) (hl : st.len ≤ e.n) (hp : st.pos ≤ e.n)
+    (hs : Stop e st.len) (hn : Need (.typeLoop ret) e st (B + 1)) (hd : delta (.typeLoop ret) ≤ st.pos) :
+    Tri e st (bTypeLoop rec ret) (Post (.typeLoop ret) e st) := by
+  simp only [Need, rank] at hn
+  simp only [delta] at hd
+  have := exN_le st
+  unfold bTypeLoop
+  wq
+  spec_close
+
 end specs
 
 end Uft.Demangle
